@@ -35,7 +35,8 @@ ASSUMPTIONS = ['the decoder state handed to a frame satisfies the invariant Stat
                'x86-64 gcc: casts to narrower integers truncate, >> on negative values is arithmetic']
 LEVEL_TEXT = ('bit-exact executable Lean model of silk_decode_parameters, silk_decode_core (incl. silk_LPC_analysis_filter, '
               'silk_bwexpander, silk_DIV32_varQ, silk_INVERSE32_varQ, 32-bit wrap-around and saturation made explicit) and of the '
-              'good-frame path of silk_decode_frame, with the LTP codebooks / offsets / constants regenerated from the source; '
+              'good-frame path of silk_decode_frame; the LTP codebooks / offsets / constants the model reads are FROZEN copies '
+              '(OpusModel/SilkCoreFrozen.lean), proved equal to the values regenerated from the source on every run; '
               'theorems for all states and inputs about the model (see REQUIRED_THEOREMS); tied by exact comparison of every '
               'output sample and every state member on frames of real encoder streams and random in-range parameter sets under '
               'ASan/UBSan')
@@ -44,9 +45,18 @@ LEVEL_NOTE = ('trusted: Lean kernel; harness hooks (the repo\'s decode_frame.c c
 TECHNIQUE = 'Lean 4 theorems over an executable bit-exact model + differential correspondence (outputs and post-state) + implementation-only search'
 
 REQUIRED_THEOREMS = ['OpusProps.C03SilkCore.' + t for t in (
-    'core_output_int16', 'tables_frozen_eq_repo', 'parameters_total', 'core_total', 'frame_total_preserves_invariant',
-    'history_total_invariant', 'frame_independent_of_stale_excitation')]
-UNPROVED = []
+    'core_output_int16', 'tables_frozen_eq_repo', 'parameters_total', 'symbol_layer_delivers_frame_ok', 'core_total', 'frame_total_preserves_invariant',
+    'history_total_invariant', 'frame_independent_of_stale_excitation', 'excitation_no_wrap')]
+UNPROVED = [
+    'core_ltp_add_no_overflow: silk_ADD_LSHIFT32( pexc_Q14[i], LTP_pred_Q13, 1 ) (decode_core.c:193, a plain signed +) cannot overflow on '
+    'states reachable from decodable streams. Not proved (it needs a bound on sLTP_Q15 through the re-whitening and gain scaling); the '
+    'model reduces mod 2^32 and counts the events (op `ub`): 0 events on 6000 tie inputs incl. saturating random states; UBSan in the tie',
+    'state_ok_after_reset_and_loss: silk_decoder_set_fs / silk_init_decoder and silk_PLC establish StateOk (in particular lagPrev in '
+    '[2 ms, 18 ms] after a concealed voiced frame). These functions belong to other slices (SilkPlc / SilkApi); here StateOk is a '
+    'hypothesis for the first frame of a history of good frames and is preserved by every good frame (proved)',
+    'no_wrap lemmas for the remaining expressions (silk_SMLAWB accumulations of the LTP / LPC predictors wrap by design in the macros; '
+    'silk_DIV32_varQ / silk_INVERSE32_varQ internals): modelled with explicit wrap32, no range lemma',
+]
 
 
 def _wait_driver(secs=120):
